@@ -47,10 +47,6 @@ Definition snap_eqb (a b : snap) : bool :=
 
 Definition events_eqb := list_eqb event_eqb.
 
-Definition cursors_of (es : list emit) : list (Z * Z) :=
-  flat_map (fun e => match e with ToCursor r c => [(r, c)] | _ => [] end) es.
-Definition clips_of (es : list emit) : list (list Z) :=
-  flat_map (fun e => match e with ToClip s => [s] | _ => [] end) es.
 Definition zpair_eqb (a b : Z * Z) : bool := (fst a =? fst b) && (snd a =? snd b).
 
 (* ---------- stream "handle": sequences of steps on one real Vaxis ---------- *)
@@ -98,15 +94,20 @@ Definition hcase_mismatch (c : hcase) : bool :=
         && bytes_agree bs steps).
 
 (* the property on one observation, without the model: the loop neither crashed nor wedged
-   (a full event queue that nobody reads is back-pressure, not a wedge), and the user events
-   read from Events() are exactly the ones the delivered sequences stand for, in order *)
+   (a full event queue that nobody reads is back-pressure, not a wedge), the user events
+   read from Events() are exactly the ones the delivered sequences stand for, in order, and
+   the callers of CursorPosition received exactly the answers to their queries.  Both from the
+   terminal's side ([spec_wire], [spec_answers]): a report CSI .. R is the reply, and must not
+   surface as a key, from the moment the query has been written, wherever the schedule put the
+   arming of the request flag *)
 Definition hcase_violation (c : hcase) : bool :=
-  let '((_, q, _, sn0), steps, (kt, _), (code, evs, _, _, _)) := c in
+  let '((_, q, _, sn0), steps, (kt, _), (code, evs, curs, _, _)) := c in
   let '(p, rq, _, _, _, _, _, _, _) := sn0 in
   let backpressure := match q with Some n => zlen evs =? n | None => false end in
   if code =? 1 then forallb wf_item (items_of_steps steps)
   else if code =? 2 then negb backpressure
-  else negb (events_eqb (filter is_user evs) (spec_user (dec_of kt) p rq steps)).
+  else negb (events_eqb (filter is_user evs) (spec_wire (dec_of kt) p rq steps)
+             && list_eqb zpair_eqb curs (spec_answers rq false steps)).
 
 Definition c03_handle_mismatches (cases : list hcase) : list Z := bad_indices hcase_mismatch cases.
 Definition c03_handle_violations (cases : list hcase) : list Z := bad_indices hcase_violation cases.
